@@ -3,8 +3,11 @@ import re, os
 from vlib import core, drivers
 
 PROP = 'C09'
-MODULES = ['PistacheModel.Props.C09']
-THEOREMS = ['Pistache.Serve.Props.' + t for t in ('route_readonly', 'serveAll_readonly', 'answers_independent', 'interleaving_irrelevant', 'old_route_writes')]
+MODULES = ['PistacheModel.Props.C09', 'PistacheModel.Props.C09Shutdown']
+THEOREMS = ['Pistache.Serve.Props.' + t for t in ('route_readonly', 'serveAll_readonly', 'answers_independent', 'interleaving_irrelevant', 'old_route_writes')] + \
+           ['Pistache.Shutdown.Props.' + t for t in ('shutdown_returns', 'all_threads_end', 'shutdown_completes', 'wakeup_never_lost', 'no_exit_without_shutdown',
+                                                      'notify_first_can_hang', 'notify_first_hangs_forever')]
+SD_SOURCES = ['drv_sd.cc']
 
 METHODS = ['OPTIONS', 'GET', 'POST', 'HEAD', 'PUT', 'PATCH', 'DELETE', 'TRACE', 'CONNECT']
 PATHS = ['/echo/abc', '/echo/x/', '//echo//y', '/p/1', '/d/zz', '/only-get/7', '/nowhere/1', '/echo', '/', '/p', '/echo/a/b', '/d/', '/only-get/']
@@ -87,8 +90,78 @@ def classify(ln, out):
     if w[0] in ('route', 'routenf'): return (w[0], w[1], w[2], out[:3])
     return ('mt',) + tuple(w[1:5]) + (out.split(' bad=')[-1][:40],)
 
+# ---- shutdown protocol: schedules forced at the system-call boundary (harness/drv_sd.cc) against Model/Shutdown.lean
+def sd_random(rnd, count, maxlen=40):
+    L = []
+    for _ in range(count):
+        n = rnd.choice([1, 1, 2, 2, 3, 4])
+        ps = rnd.random()
+        toks = []
+        for _ in range(rnd.randint(3, maxlen)):
+            r = rnd.random()
+            if r < 0.25 * ps + 0.1: toks.append('S')
+            elif r < 0.45: toks.append('A')
+            elif r < 0.6: toks.append('c%d' % rnd.randrange(n))
+            else: toks.append('W%d' % rnd.randrange(n))
+        L.append('sd %d %s' % (n, ' '.join(toks)))
+    return L
+
+def sd_lines(tier, rnd):
+    import itertools
+    L = []
+    # every schedule up to a length over {acceptor, worker 0, caller, connect} with one worker
+    for k in range(1, 6 if tier == 'quick' else 8):
+        for t in itertools.product(['A', 'W0', 'S', 'c0'], repeat=k): L.append('sd 1 ' + ' '.join(t))
+    # shutdown() started at every point of a busy two-worker history, its steps spread in every way over the next slots
+    base = ['c0', 'A', 'A', 'c1', 'W0', 'A', 'A', 'W1', 'c1', 'W0', 'A', 'W1', 'A', 'W1', 'W0', 'A', 'W0', 'W1', 'A', 'W0', 'W1']
+    for start in range(len(base)):
+        for gap in (0, 1, 2):
+            toks = list(base[:start]); rest = list(base[start:])
+            for i in range(7):
+                toks.append('S'); toks.extend(rest[:gap]); rest = rest[gap:]
+            L.append('sd 2 ' + ' '.join(toks + rest))
+    L += sd_random(rnd, 300 if tier == 'quick' else 6000)
+    return L
+
+def oracle_sd(ln, out):
+    """direct statement of the shutdown clause on the implementation's own trace: shutdown() returns, then the acceptor has
+    left its loop after at most 3 of its own steps and every worker after at most 2; nobody leaves before shutdown() is
+    called; once everything is released all threads end"""
+    if out.startswith('HANG') or 'STUCK' in out: return ('shutdown', 'a framework thread (or shutdown() itself) did not end: ' + out[:200])
+    if any(x in out for x in BAD): return ('crash', 'implementation aborted: ' + out[:200])
+    toks = ln.split()[2:]; labs = out.split()
+    if len(labs) != len(toks) + 1 or labs[-1] != 'final=clean': return ('shutdown', 'threads still alive after shutdown(), or malformed answer: ' + out[:200])
+    started = False; done = False; since = {}
+    ncaller = 0; nw = int(ln.split()[1])
+    for t, l in zip(toks, labs):
+        if t == 'S':
+            started = True; ncaller += 1
+            if l == 'd': done = True; since = {}
+            if ncaller >= 2 * nw + 3 and not done: return ('shutdown', 'shutdown() has not returned after %d of its own steps' % ncaller)
+        elif t[0] in 'AW':
+            if l == 'x' and not started: return ('spurious-exit', 'thread %s left its loop although shutdown() was never called' % t)
+            if done:
+                since[t] = since.get(t, 0) + 1
+                if since[t] >= (3 if t == 'A' else 2) and l not in ('x', '-'):
+                    return ('shutdown', 'thread %s is still in its loop after %d own steps since shutdown() returned' % (t, since[t]))
+    return None
+
+def extra_sd(res, lean, tier, rnd):
+    sdrv, err = core.build_driver('drv_sd', SD_SOURCES)
+    if err:
+        res.failures.append({'kind': 'kdiff', 'detail': 'cannot build the shutdown-protocol driver: ' + err}); return
+    before = len(res.failures)
+    lines = [l for l in core.corpus_lines(PROP) if l.startswith('sd ')] + sd_lines(tier, rnd)
+    core.kdiff(res, lean, sdrv, lines, oracle=oracle_sd, classify=lambda l, o: ('sd', l.split()[1], o), tag='sd:')
+    new = res.failures[before:]
+    if new and not [f for f in new if f['kind'] == 'oracle']:
+        # the tie to the model broke without a failing input: search more schedules with the direct oracle only
+        import random
+        core.kdiff(res, None, sdrv, sd_random(random.Random(core.seed() + 77), 4000, 60), oracle=oracle_sd, tag='sd-search:')
+
 def extra(res, lean, drv, tier, rnd):
-    """the same scenarios on a ThreadSanitizer build of the library: any report is a violation"""
+    """shutdown-protocol schedules; then the mt scenarios on a ThreadSanitizer build of the library: any report is a violation"""
+    extra_sd(res, lean, tier, rnd)
     tdrv, err = core.build_driver('drv_mt', drivers.MT_SOURCES, implflags=drivers.TSAN_FLAGS, tag='tsan')
     if err:
         res.failures.append({'kind': 'kdiff', 'detail': 'cannot build the ThreadSanitizer driver: ' + err}); return
@@ -106,8 +179,11 @@ def extra(res, lean, drv, tier, rnd):
 RULE = ('route level (router without and with a custom not-found handler): every method x 13 paths (registered for that method, for other methods only, for none; with duplicate and trailing slashes) against a shared router with GET/POST/PUT/DELETE tables on a live endpoint: '
         'status, body, Allow set and the number of method tables of the shared router after serving are compared with the model; concurrent: c clients x r keep-alive requests x w workers (swept), request mixes hitting every '
         'method table incl. methods nobody registered, all clients released together, shutdown() after the load, in the middle of it, or right after serveThreaded() with no client at all: every answer must carry its own request\'s tag, shutdown must return, stop the acceptor and leave '
-        'no framework thread; the same scenarios run on a ThreadSanitizer build, any report is a violation. non-trivial = distinct (op, parameters, outcome)')
-ASSUME = ['ThreadSanitizer sees only the interleavings the OS scheduler produced during the run (sampling, not a proof of race freedom)', 'the handler is a pure function of the request',
+        'no framework thread; the same scenarios run on a ThreadSanitizer build, any report is a violation. shutdown protocol (op sd): a real threaded Tcp::Listener whose acceptor, workers and the caller of shutdown() are parked at the '
+        'system-call boundary (epoll_wait entry / events collected / before and after each eventfd_write) and stepped by a schedule: every schedule up to length 5 (quick) / 7 (thorough) with one worker, shutdown() started at every point of a busy '
+        'two-worker history, seeded random schedules with 1-4 workers and connections dispatched to chosen workers; the label after every step and the final join are compared with Model/Shutdown.lean. non-trivial = distinct (op, parameters, outcome)')
+ASSUME = ['shutdown protocol: the kernel behaviour of edge-triggered eventfds, the level-triggered listening socket and the order of the epoll ready list is what Model/Shutdown.lean states (sampled by the sd correspondence on every run); preemption between instructions not separated by a system call is not exhibited',
+          'ThreadSanitizer sees only the interleavings the OS scheduler produced during the run (sampling, not a proof of race freedom)', 'the handler is a pure function of the request',
           'thread termination is observed through /proc/self/task within 1.5 s of shutdown() returning (endpoint still alive) and again within 1 s of destroying the endpoint']
 
 def run(tier):
@@ -115,6 +191,10 @@ def run(tier):
 def replay(path):
     import json
     case = json.load(open(path)).get('case') or ''
+    if case.startswith('sd '):
+        sdrv, err = core.build_driver('drv_sd', SD_SOURCES)
+        out = core.run_lines(sdrv, [case])[0]; d = oracle_sd(case, out)
+        print('case:', case); print('impl:', out); print('oracle:', d or 'holds'); return 1 if d else 0
     if case.startswith('tsan:'):
         tdrv, err = core.build_driver('drv_mt', drivers.MT_SOURCES, implflags=drivers.TSAN_FLAGS, tag='tsan')
         out = core.run_lines(tdrv, [case[5:]])[0]; d = oracle_tsan(case[5:], out)
